@@ -69,7 +69,20 @@ def main():
         ver["demo_on_clean_tree"] = "pass" if rc == 0 else "FAIL"
         if rc != 0:
             ver["demo_clean_output"] = out[-1500:]
-        rc, out = sh("git apply --whitespace=nowarn %s" % os.path.join(os.path.abspath(src), "patch.diff"), cwd=wt)
+        pf = os.path.join(os.path.abspath(src), "patch.diff")
+        rc, out = sh("git apply --whitespace=nowarn %s" % pf, cwd=wt)
+        if rc != 0:
+            # the tree moved on (fix commits): try with fuzz and, when that works, refresh the stored patch
+            rc2, out2 = sh("patch -p1 -F3 --no-backup-if-mismatch < %s" % pf, cwd=wt)
+            if rc2 == 0:
+                rc3, d = sh("git diff", cwd=wt)
+                if rc3 == 0 and d.strip():
+                    shutil.copy(pf, pf + ".orig")
+                    open(pf, "w").write(d)
+                    ver["patch_refreshed"] = "context refreshed against /repo %s (original kept as patch.diff.orig)" % ver["repo_head"]
+                    rc = 0
+            else:
+                sh("git checkout -- .", cwd=wt)
         ver["patch_applies"] = rc == 0
         if rc != 0:
             ver["patch_output"] = out[-800:]
